@@ -40,6 +40,8 @@ func runC05(l *core.Ledger) {
 	l.Rule("C05-M5", "WrapMessage writes only Status into the metadata it is given; no server-side code writes MessageID or Method; generated two-way handlers echo in.Metadata or a proto.Clone of it")
 	l.Rule("C05-M6", "every non-streaming reply channel has capacity >= number of enqueues registering it (len(c) with one enqueue per element of c; >= 1 with a single enqueue)")
 	l.Rule("C05-M7", "every response carries c.node.ID() of the producing channel (see C01-R6)")
+	l.Rule("C05-M8", "who may remove a router: the delivery that answered it (same key, same function), or the owning call itself through a helper that deletes exactly the id it is given, called with the call's own message id; the map is never replaced")
+	l.Rule("C05-M9", "a router is registered as streaming only for a call whose servers may answer more than once: the flag handed to enqueue is false or the call data's ServerStream field")
 
 	eps := findEntryPoints(l, r, "C05-M1")
 	if !l.Floor("C05-M1", len(eps), 6, "context-taking entry points") {
@@ -51,7 +53,9 @@ func runC05(l *core.Ledger) {
 		c05M2(l, r, rm)
 		checkRouterLocks(l, r, rm, "C05-M3")
 		checkDeliverDelete(l, r, rm, "C05-M4", false)
+		c05M8(l, r, rm, "C05-M8")
 	}
+	c05M9(l, eps, "C05-M9")
 	c05M5(l, r)
 	c05M6(l, r, eps)
 	checkResponseProvenance(l, r, "C05-M7")
@@ -497,4 +501,107 @@ func c05M6(l *core.Ledger, r *rt, eps []*entryPoint) {
 		}
 	}
 	l.Floor("C05-M6", n, 6, "reply channel allocations")
+}
+
+// c05M8: who may delete from the router map. A router that disappears
+// without having been answered turns a late reply (a released handler, a slow
+// node) into silence: the call waits until its context ends.
+func c05M8(l *core.Ledger, r *rt, rm *routerModel, rule string) {
+	n := 0
+	for _, a := range rm.accesses {
+		if a.kind == "replace" {
+			l.Bad(rule, fnKey(a.fn)+"/replace", sx.PosOf(a.at), "the router map is replaced as a whole: every pending call on this node loses its router")
+			continue
+		}
+		if a.kind != "delete" {
+			continue
+		}
+		n++
+		key := fmt.Sprintf("%s/delete%d", fnKey(a.fn), n)
+		// (a) the router deleted here is the one a delivery in this function just answered
+		answered := false
+		for _, d := range rm.deliveries {
+			if d.fn == a.fn && d.key != nil && sameValue(a.key, d.key) {
+				answered = true
+			}
+		}
+		if answered {
+			l.OK(rule, key, sx.PosOf(a.at), "deletes the router it delivered through")
+			continue
+		}
+		// (b) a helper deleting exactly the id it is given, called by the owning call with its own id
+		okParam := sx.All(sx.Origins(a.key), func(o sx.Origin) bool { return o.Kind == sx.KParam })
+		if okParam && !sx.InLoop(sx.NodeOf(a.at)) {
+			var prm *ssa.Parameter
+			for _, o := range sx.Origins(a.key) {
+				prm, _ = o.V.(*ssa.Parameter)
+			}
+			idx := -1
+			for i, p := range a.fn.Params {
+				if p == prm {
+					idx = i
+				}
+			}
+			bad := ""
+			sites := 0
+			for _, f := range allFuncs(l.Prog, r.pkg) {
+				sx.AllInstrs(f, func(_ sx.Node, in ssa.Instruction) {
+					cc := sx.CallOf(in)
+					if cc == nil || cc.StaticCallee() != a.fn || idx < 0 || idx >= len(cc.Args) {
+						return
+					}
+					sites++
+					own := sx.All(sx.Origins(cc.Args[idx]), func(o sx.Origin) bool {
+						switch o.Kind {
+						case sx.KField:
+							return o.Field != nil && o.Field.Name() == "MessageID" && o.Field.Pkg() != nil && o.Field.Pkg().Path() == orderingPkg
+						case sx.KCall:
+							// the id this invocation just drew for its own metadata
+							c, isCall := o.V.(*ssa.Call)
+							return isCall && isGetMsgID(&c.Call)
+						case sx.KEscaped:
+							// the call's own metadata literal, shared with the queued requests (nobody writes it: C15)
+							return o.V != nil && isNamed(o.V.Type(), orderingPkg, "Metadata")
+						}
+						return false
+					})
+					if !own {
+						bad = fnKey(f) + " passes " + sx.OriginsString(sx.Origins(cc.Args[idx]))
+					}
+				})
+			}
+			if bad == "" && sites > 0 {
+				l.OK(rule, key, sx.PosOf(a.at), "helper deleting the id it is given; every caller passes its call's own message id")
+				continue
+			}
+			if sites == 0 {
+				l.OK(rule, key, sx.PosOf(a.at), "helper deleting the id it is given; not called")
+				continue
+			}
+			l.Bad(rule, key, sx.PosOf(a.at), "a router is removed under an id that is not the removing call's own message id ("+bad+"): another call's reply is discarded")
+			continue
+		}
+		l.Bad(rule, key, sx.PosOf(a.at), "a router is removed although its call has not been answered here and the id is not the removing call's own ("+sx.OriginsString(sx.Origins(a.key))+"): the late reply of a released handler or a slow node finds no router and its call waits until its context ends")
+	}
+}
+
+// c05M9: the streaming flag handed to enqueue.
+func c05M9(l *core.Ledger, eps []*entryPoint, rule string) {
+	for _, ep := range eps {
+		for i, c := range ep.enqueues {
+			if len(c.Call.Args) < 4 {
+				continue
+			}
+			flag := c.Call.Args[3]
+			key := fmt.Sprintf("%s/enqueue%d/streaming", ep.key, i)
+			ok := sx.All(sx.Origins(flag), func(o sx.Origin) bool {
+				if o.Kind == sx.KConst {
+					k, isC := o.V.(*ssa.Const)
+					return isC && k.Value != nil && k.Value.Kind() == constant.Bool && !constant.BoolVal(k.Value)
+				}
+				return o.Kind == sx.KField && o.Field != nil && o.Field.Name() == "ServerStream" && sx.All(o.Base, sx.IsParam(ep.data))
+			})
+			l.Check(ok, rule, key, c.Pos(), "false, or the call data's ServerStream", "the router is registered as streaming ("+sx.OriginsString(sx.Origins(flag))+") for a call whose nodes answer once: it survives the reply, and a later stream failure reports the same node a second time (reply and error for one node)")
+		}
+	}
 }
